@@ -51,6 +51,9 @@ def cases(tier, seed):
             yield {"groups": [ga, gb], "configs": "small", "seed": seed, "tier": tier}
         for tri in itertools.combinations_with_replacement(G2, 3):
             yield {"groups": list(tri), "configs": "small3", "seed": seed, "tier": tier}
+        # an estimator whose predict_proba / decision_function / predict disagree, with every explicit predict_method
+        for ga, gb in itertools.combinations_with_replacement(G2, 2):
+            yield {"groups": [ga, gb], "configs": "small", "seed": seed, "tier": tier, "methods": True}
         # near-ties: distinct scores 2e-6 apart must be treated as distinct thresholds
         for ga, gb in itertools.combinations_with_replacement(G2 + G3[::4], 2):
             yield {"groups": [ga, gb], "configs": "small", "seed": seed, "tier": tier, "near": True}
@@ -149,6 +152,8 @@ def run_case(case, which):
     est = prefit_score()
     outcome = []
     pts_cache = {}
+    if case.get("methods"):
+        return _run_methods(case, which, y, s, a, labels, idx, out)
     for c, obj, flip, gs in configs_for(case):
         out["evals"] += 1
         if gs == 1:
@@ -224,6 +229,69 @@ def run_case(case, which):
             if ach < const - 1e-9:
                 V.append(viol("C05:%s:worse-than-constant" % c, "achieved %.12g < best constant classifier %.12g (%s)" % (ach, const, ctx), const, ach, snip))
             outcome.append(round(ach, 9))
+    out["outcome"] = outcome
+    out["classes"] = sorted(out["classes"])
+    return out
+
+
+def _run_methods(case, which, y, s, a, labels, idx, out):
+    """The same oracles with an estimator whose three prediction methods return different scores, for every explicit predict_method."""
+    from fairlearn.postprocessing import ThresholdOptimizer
+
+    from mc.stubs import MultiScore
+
+    V = out["violations"]
+    n = len(y)
+    out["classes"].add("explicit_predict_method")
+    lv = sorted(set(s))
+    rank = {v: i for i, v in enumerate(lv)}
+    # column 0: the palette score (decision_function); column 1: a probability with the REVERSED ordering; column 2: a hard 0/1 label
+    col1 = [0.9 - 0.8 * rank[v] / max(1, len(lv) - 1) for v in s]
+    col2 = [float((i + yy) % 2) for i, yy in enumerate(y)]
+    X = np.array([s, col1, col2], float).T
+    scores_of = {"decision_function": list(s), "predict_proba": col1, "predict": col2}
+    est = MultiScore().fit(None, None)
+    outcome = []
+    for method in ("decision_function", "predict_proba", "predict"):
+        sc = scores_of[method]
+        for c, obj, flip, gs in configs_for(case):
+            out["evals"] += 1
+            ctx = "predict_method=%s constraints=%s objective=%s flip=%s grid_size=%d y=%r scores=%r groups=%r" % (method, c, obj, flip, gs, y, sc, a)
+            try:
+                t_ = ThresholdOptimizer(estimator=est, constraints=c, objective=obj, prefit=True, predict_method=method, grid_size=gs, flip=flip).fit(X, y, sensitive_features=a)
+                p = [float(v) for v in t_._pmf_predict(X, sensitive_features=a)[:, 1]]
+            except Exception as e:
+                V.append(viol("%s:predict_method:raises-%s" % (which, type(e).__name__), "fit/_pmf_predict raised %r (%s)" % (e, ctx)))
+                continue
+            if not all(math.isfinite(v) and -1e-12 <= v <= 1 + 1e-12 for v in p):
+                if which == "C04":
+                    V.append(viol("C04:pmf:out-of-range", "probabilities %r (%s)" % (p, ctx)))
+                continue
+            if which == "C04":
+                names = ["false_positive_rate", "true_positive_rate"] if c == "equalized_odds" else [SIMPLE[c]]
+                for nm in names:
+                    vals = [M(nm, [y[i] for i in idx[g]], [p[i] for i in idx[g]]) for g in labels]
+                    if max(vals) - min(vals) > 1e-9:
+                        V.append(viol("C04:%s:disparity:predict_method" % c, "%s per group = %r (%s)" % (nm, vals, ctx), "equal", vals))
+            else:
+                if c != "equalized_odds":
+                    xm = SIMPLE[c]
+                    ach = sum(len(idx[g]) / n * M(obj, [y[i] for i in idx[g]], [p[i] for i in idx[g]]) for g in labels)
+                    P = {g: points([y[i] for i in idx[g]], [sc[i] for i in idx[g]], flip, xm, obj) for g in labels}
+                    ref = max(sum(len(idx[g]) / n * env(P[g], i_ / gs) for g in labels) for i_ in range(gs + 1))
+                else:
+                    ach = M(obj, y, p)
+                    P = {g: points([y[i] for i in idx[g]], [sc[i] for i in idx[g]], flip, "false_positive_rate", "true_positive_rate") for g in labels}
+                    npos = sum(y)
+                    vals = []
+                    for i_ in range(gs + 1):
+                        x = i_ / gs
+                        ym = min(env(P[g], x) for g in labels)
+                        vals.append((npos * ym + (n - npos) * (1 - x)) / n if obj == "accuracy_score" else 0.5 * ym + 0.5 * (1 - x))
+                    ref = max(vals)
+                if abs(ach - ref) > 1e-9:
+                    V.append(viol("C05:%s:suboptimal:predict_method" % c, "achieved %s %.12g, optimum on the grid %.12g (%s)" % (obj, ach, ref, ctx), ref, ach))
+            outcome.append(round(sum(p), 9))
     out["outcome"] = outcome
     out["classes"] = sorted(out["classes"])
     return out
